@@ -197,7 +197,7 @@ func dsListExhaustive(c *CaseCtx, part, parts int) {
 				if !checkListState(c, l, m, "construction") {
 					return
 				}
-				if !listStep(c, l, m, o, fmt.Sprintf("state %s path %d", qs(s), path)) && len(c.res.Viol) >= 8 {
+				if !listStep(c, l, m, o, fmt.Sprintf("state %s path %d", qs(s), path)) && c.Unexplained() >= 8 {
 					return
 				}
 			}
@@ -228,7 +228,7 @@ func dsListSequences(c *CaseCtx, part, parts, depth int) {
 			m2 := m.Clone()
 			c.Stat("sequences_steps", 1)
 			if !listStep(c, l2, m2, o, "sequence "+trace) {
-				if len(c.res.Viol) >= 8 {
+				if c.Unexplained() >= 8 {
 					return false
 				}
 				continue
@@ -265,7 +265,7 @@ func dsListRandom(c *CaseCtx, n, length int) {
 			}
 		}
 		c.Stat("random_sequences", 1)
-		if len(c.res.Viol) >= 8 {
+		if c.Unexplained() >= 8 {
 			return
 		}
 	}
@@ -432,7 +432,7 @@ func dsSetExhaustive(c *CaseCtx, depth int) {
 		for _, o := range ops {
 			s2, m2 := cloneSet(cur.s), cur.m.Clone()
 			if !setStep(c, s2, m2, o, "bfs") {
-				if len(c.res.Viol) >= 8 {
+				if c.Unexplained() >= 8 {
 					return
 				}
 				continue
@@ -456,7 +456,7 @@ func dsSetExhaustive(c *CaseCtx, depth int) {
 			s2, m2 := cloneSet(s), m.Clone()
 			c.Stat("sequences_steps", 1)
 			if !setStep(c, s2, m2, o, "sequence "+trace) {
-				if len(c.res.Viol) >= 8 {
+				if c.Unexplained() >= 8 {
 					return false
 				}
 				continue
@@ -723,7 +723,7 @@ func dsZExhaustive(c *CaseCtx, part, parts, layouts int) {
 					continue
 				}
 				ss, m := buildZ(c.Rng, state)
-				if !zStep(c, ss, m, o, fmt.Sprintf("state#%d layout %d", code, lay)) && len(c.res.Viol) >= 8 {
+				if !zStep(c, ss, m, o, fmt.Sprintf("state#%d layout %d", code, lay)) && c.Unexplained() >= 8 {
 					return
 				}
 			}
@@ -735,7 +735,7 @@ func dsZExhaustive(c *CaseCtx, part, parts, layouts int) {
 			}
 			for _, o := range ops {
 				if readOnlyKinds[o.K] || o.K == "ZGetByRank" {
-					if !zStep(c, ss, m, o, fmt.Sprintf("state#%d layout %d", code, lay)) && len(c.res.Viol) >= 8 {
+					if !zStep(c, ss, m, o, fmt.Sprintf("state#%d layout %d", code, lay)) && c.Unexplained() >= 8 {
 						return
 					}
 				}
@@ -776,7 +776,7 @@ func dsZRandom(c *CaseCtx, n, length int) {
 			}
 		}
 		c.Stat("random_sequences", 1)
-		if len(c.res.Viol) >= 8 {
+		if c.Unexplained() >= 8 {
 			return
 		}
 	}
